@@ -479,6 +479,7 @@ pub fn check_case(c: &Case) -> Outcome {
             o = o.class("ZonedDateTime").class(prec_class(p)).class(match zone {
                 ZoneKind::Fixed(_) => "zone:fixed-offset",
                 ZoneKind::Table(_) => "zone:table",
+                ZoneKind::Real { .. } => "zone:real-iana-bundled-provider",
             });
             let zdt = match ZonedDateTime::try_new(*t, calendar(*cal), tz.clone()) {
                 Ok(v) => v,
